@@ -51,6 +51,22 @@ func C04(tier string) int {
 			}
 		}
 	}
+	// fan-in: two producers into the two inputs of one consumer
+	type fi struct{ words, T int }
+	fanin := []fi{{2, 7}}
+	if tier == "thorough" {
+		fanin = []fi{{2, 9}, {3, 8}}
+	}
+	for _, f := range fanin {
+		for mode := 0; mode <= 1; mode++ {
+			mname := "strict"
+			if mode == 1 {
+				mname = "known-situations-excluded"
+			}
+			cfgs = append(cfgs, Config{Name: fmt.Sprintf("fan-in producers=2 program_words=%d ticks=%d mode=%s", f.words, f.T, mname), Func: "zzC04FanIn",
+				Args: []Arg{I(f.words), I(f.T), I(mode)}, Setup: func(in *symgo.Interp) { in.MaxUnion = 64; in.SchedOrder = []int{2, 3, 4} }})
+		}
+	}
 	sp := &Spec{
 		ID: "C04", Level: "model_checking", Tier: tier, Harness: h,
 		LoadPkgs: []string{"pkg/bondmachine"},
@@ -59,6 +75,7 @@ func C04(tier string) int {
 		Assumptions: []string{
 			"simulator side only: bondmachine.VM.Step, Processor_execute, procbuilder.VM.Step, R2owa/I2rw.Simulate, waitRecvI2rw, Add/ExecuteDeferredInstructions executed symbolically; the generated hardware is not part of this check yet",
 			"one producer (opcodes inc,j,nop,r2owa) bonded to k consumers (cpy,i2rw,inc,j,nop), 8-bit registers, R=1; every ROM word of the first program_words addresses and every initial register is a solver variable (any instruction mix, any padding, hence any relative speed); the rest of the ROM jumps to 0",
+			"fan-in configurations: two producers bonded to the two inputs of one consumer (N=2), the same monitor per link",
 			"bounded horizon (ticks) from the reset state of the handshake flags; configurations with delays<=D give every opcode a single-delay distribution whose delay is a solver variable in 0..D (SimDelayMap); simbox.DelayDistribution.GetValue is stubbed by its contract (returns one of the delays of the distribution), multi-valued distributions are outside",
 			"goroutines: deterministic run-until-block scheduler, sends do not block, two resume orders of the processor workers; Go-scheduler interleavings and data races are outside (C09)",
 			"mode=known-situations-excluded assumes away exactly the two recorded defects: (i) an i2rw executing while its input's received flag is still high from the previous capture, (ii) an r2owa starting a new offer while received is still high from the previous transfer; everything else must hold there",
